@@ -21,6 +21,23 @@ var (
 	mapLoops       int64
 )
 
+// deviationsFor: short inputs get one more deviation (their script spaces are small), so that
+// faults needing two cooperating order choices are reached on the quick tier too.
+func deviationsFor(c Case) int {
+	size := len(c.Items)
+	if c.Kind == kCliques {
+		size = c.N
+	}
+	switch {
+	case size <= mapDeepSize:
+		return mapDeviations + 1
+	default:
+		return mapDeviations
+	}
+}
+
+var mapDeepSize = 3
+
 var permCache = map[int][][]int{}
 
 func init() {
@@ -145,7 +162,7 @@ func init() {
 			if dev > 0 {
 				nondefault++
 			}
-			if dev >= mapDeviations {
+			if dev >= deviationsFor(c) {
 				return
 			}
 			sizes := append([]int(nil), env.Sizes...)
